@@ -204,9 +204,18 @@ def check_material(case, v):
             text += f".add({extra[0]!r},{extra[1]})"
         elif op == "sum_substance":
             from scinumtools.materials import Substance
-            mat = mat + Substance(extra[0], natural=nat, proportion=extra[1])
+            import re as _re
+            atoms_ = _re.findall(r"([A-Z][a-z]?)(\d*)", extra[0]) if _re.fullmatch(r"(?:[A-Z][a-z]?\d*)+", extra[0]) else []
+            if len(atoms_) >= 2 and len({a for a, _n in atoms_}) == len(atoms_) and case.get("subset", [0])[0] % 2 == 0:
+                # the operand built from a dictionary of its elements: it still stands for the whole formula
+                d_ = {a: int(n_ or 1) for a, n_ in atoms_}
+                mat = mat + Substance(d_, natural=nat, proportion=extra[1])
+                text += f" + Substance({d_!r}, proportion={extra[1]})"
+                v.label("substance_operand_built_from_dict")
+            else:
+                mat = mat + Substance(extra[0], natural=nat, proportion=extra[1])
+                text += f" + Substance({extra[0]!r}, proportion={extra[1]})"
             final[extra[0]] = final.get(extra[0], 0) + extra[1]
-            text += f" + Substance({extra[0]!r}, proportion={extra[1]})"
         elif op == "rmul":
             mat = extra * mat
             for f in final:
